@@ -145,11 +145,13 @@ fn main() {
         "C16" => {
             ev.families.push(e4::c16_values(id));
             ev.families.push(e4::c16_strings(id, if thorough { 5 } else { 4 }));
+            ev.families.push(e4::c16_long_tails(id, if thorough { 300 } else { 130 }));
             ev.nontrivial_rule = "every string of the stated length over the stated alphabet is one case; non-trivial = strings accepted by some parser (counter e4_accepted) plus all value round trips".into();
             ev.nontrivial_keys = vec!["e4_accepted", "c16_action_values"];
         }
         "C17" => {
             ev.families.push(e5::run(id, thorough));
+            ev.families.push(e5::run_ft_successors(id));
             ev.nontrivial_rule = "states = constructed states hashed; transitions = pairs of states differing in exactly one feature that were compared; non-trivial = pairs of push/pull statuses + step pairs + side pairs".into();
             ev.nontrivial_keys = vec!["c17_status_pairs", "c17_step_pairs", "c17_side_pairs"];
         }
@@ -411,6 +413,7 @@ fn run_c15(thorough: bool, ev: &mut Evidence, t0: Instant) {
     let id = "C15";
     ev.families.push(e4::c15_grammar(id, thorough));
     ev.families.push(e4::c15_short_strings(id, if thorough { 6 } else { 5 }));
+    ev.families.push(e4::c15_long_tails(id, if thorough { 200 } else { 80 }));
     let deadline = Some(t0 + Duration::from_secs(if thorough { 3600 } else { 45 }));
     // round trips over reachable states: every state of F1 (all step prefixes), every F2 root, every FS state of one turn
     let o_all = e1::E1Opts { prop: id, checks: C15, move_number: 2, deadline, chunk: 1, roots_only: false, max_turns: 1, follow: None };
